@@ -799,6 +799,9 @@ func runC13_9(c *Ctx) {
 			} else {
 				c.Check(reach&readerLive == 0 && reach != 0, key, p.InstrPos(call), "a writer redials only from "+st.names(reach),
 					"a writer's redial can start from "+st.names(reach&readerLive)+": the reader of the old connection is still alive (it has not noticed the loss, or is waiting for handlers before it drains) - when it resumes it cancels the calls re-sent on the new connection and closes the new socket")
+				need := st.mask("statusPassiveClosed", "statusRedialFailed")
+				c.Check(reach&need == need, key+" (recovers)", p.InstrPos(call), "a writer can start a redial from both states a lost session rests in: "+st.names(need),
+					"a writer's redial cannot start from "+st.names(need&^reach)+": a session whose last round of attempts failed (RedialFailed) or whose reader gave up (PassiveClosed) stays dead although the server is reachable again - every later call fails with connection closed (through the proxy: Bad Gateway for ever)")
 			}
 		}
 	}
